@@ -31,11 +31,13 @@ try:
     KNOWN_FP = {k: v.get('fingerprints', {}) for k, v in _raw.items()}
     KNOWN_LOCALS = {k: v.get('locals', {}) for k, v in _raw.items()}
     KNOWN_REFS = {k: v.get('refs', {}) for k, v in _raw.items()}
+    KNOWN_VIEWS = {k: v.get('views', {}) for k, v in _raw.items()}
 except FileNotFoundError:  # inventory not generated: the pass is off
     KNOWN = KNOWN_NAMES = None
     KNOWN_FP = {}
     KNOWN_LOCALS = {}
     KNOWN_REFS = {}
+    KNOWN_VIEWS = {}
 
 PURE_BUILTINS = {'len', 'tuple', 'list', 'set', 'frozenset', 'dict', 'sorted', 'min', 'max', 'sum', 'abs', 'int', 'bool', 'str', 'range',
                  'enumerate', 'zip', 'reversed', 'isinstance', 'any', 'all', 'divmod', 'float', 'bytes', 'repr', 'hash', 'id', 'type', 'iter'}
@@ -1107,6 +1109,29 @@ def undo_local_renames(tree, modname):
                     n.id = o
             done.append(f'{q}:{c}->{o}')
     return done
+
+
+# derived views of a molecule that come in look-alike families; which member a function consults is part of its meaning
+VIEW_FAMILIES = {
+    'adjacency': ('not_special_connectivity',),
+    'cis-trans tables': ('_stereo_cis_trans_centers', '_stereo_cis_trans_terminals', '_stereo_cis_trans_counterpart', '_stereo_cis_trans_paths'),
+    'allene tables': ('_stereo_allenes_centers', '_stereo_allenes_terminals', '_stereo_allenes_paths'),
+    'stereogenic': ('stereogenic_tetrahedrons', 'stereogenic_allenes', 'stereogenic_cis_trans', 'stereogenic_cumulenes'),
+    'chiral': ('chiral_tetrahedrons', 'chiral_allenes', 'chiral_cis_trans', '_chiral_morgan'),
+    'rings': ('sssr', 'atoms_rings', 'atoms_rings_sizes', 'ring_atoms', 'rings_count', 'connected_components', 'connected_rings', 'skin_graph', 'skin_atoms'),
+    'orders': ('atoms_order', 'smiles_atoms_order', 'int_adjacency'),
+}
+VIEW_NAMES = {v for vs in VIEW_FAMILIES.values() for v in vs}
+
+
+def view_reads(tree):
+    """{scoped function: sorted view attributes it reads on self (or on any object)}"""
+    out = {}
+    for q, fn in scoped_functions(tree):
+        got = sorted({n.attr for n in ast.walk(fn) if isinstance(n, ast.Attribute) and n.attr in VIEW_NAMES and isinstance(n.ctx, ast.Load)})
+        if got:
+            out[q] = got
+    return out
 
 
 def referrers(tree):
